@@ -79,7 +79,7 @@ def print_file(f):
 
 
 def print_program(prog):
-    return {uri: print_file(f) for uri, f in prog["files"].items()}
+    return {uri: f.get("_text") or print_file(f) for uri, f in prog["files"].items()}
 
 
 # --------------------------------------------------------------------------
@@ -444,12 +444,23 @@ def build_file(i, L, spec, al, probes, defsig=""):
     return f
 
 
+_FILES = {}
+
+
 def build_program(chain, al, probes, defsig=""):
     L = len(chain)
     files = {}
     ctx = {"P": "@helper:P", "A": "@helper:A"}
+    pk = tuple(probes)
     for i, spec in enumerate(chain):
-        files[al["uri"] % i] = build_file(i, L, spec, al, probes, defsig)
+        # a level's File depends only on its own spec, its place and the alphabet: built and printed once
+        key = (i, L, spec, al["n1"], al["uri"], pk, defsig)
+        f = _FILES.get(key)
+        if f is None:
+            f = build_file(i, L, spec, al, probes, defsig)
+            f["_text"] = print_file(f)
+            _FILES[key] = f
+        files[al["uri"] % i] = f
         if i < L - 1 and spec[6] == "d":
             ctx["up%d" % (i + 1)] = al["uri"] % (i + 1)
     return {"files": files, "main": al["uri"] % 0, "ctx": ctx}
@@ -512,14 +523,17 @@ PROBES_ATTR = [("self", "attr"), ("local", "attr"), ("parent", "attr"), ("next",
 PROBES_BODY = [("self", "m1")]
 
 
-def grid_members(L, two, ccs, fam):
+M2_REDUCED = ("-", "d", "b", "bp")
+
+
+def grid_members(L, two, ccs, fam, m2kinds=KINDS):
     """family A/B: member dispatch.  every level: m1 (and m2, nesting) x body chaining"""
     opts = []
     for i in range(L):
         pos = _pos(i, L)
         o = []
         for m1 in _kinds(pos):
-            for m2 in _kinds(pos) if two else ["-"]:
+            for m2 in _kinds(pos, m2kinds) if two else ["-"]:
                 for nest in (0, 1) if (m1 in BLOCKS and m2 in BLOCKS) else (0,):
                     for cc in _cc(pos, ccs):
                         o.append((m1, m2, nest, 0, 0, 0, "s", cc))
@@ -557,10 +571,25 @@ def grid_attr(L, fam="D"):
     return (fam, L, opts, PROBES_ATTR, "")
 
 
-def grid_chains(grid):
-    for chain in itertools.product(*grid[2]):
-        if chain_valid(chain):
-            yield chain
+def grid_chains(grid, shard=0, nshards=1):
+    """the chain_valid() chains of the grid in product order; with nshards > 1 only those whose prefix (levels 0 and
+    1; level 0 for short chains) has index = shard modulo nshards - the shards partition the grid"""
+    opts = grid[2]
+    npre = min(2, len(opts))
+    for pi, prefix in enumerate(itertools.product(*opts[:npre])):
+        if pi % nshards != shard:
+            continue
+        for rest in itertools.product(*opts[npre:]):
+            chain = prefix + rest
+            if chain_valid(chain):
+                yield chain
+
+
+def grid_prefixes(grid):
+    n = 1
+    for o in grid[2][:2]:
+        n *= len(o)
+    return n
 
 
 def grid_size(grid):
@@ -572,8 +601,10 @@ def grid_size(grid):
 
 def grids(tier):
     g = []
-    for L in (1, 2, 3):
+    for L in (1, 2):
         g.append(grid_members(L, True, ("-", "n", "s"), "A"))
+    # quick: the second member at L=3 is absent / def / block / block calling parent (the first one has all six kinds)
+    g.append(grid_members(3, True, ("-", "n", "s"), "A", KINDS if tier == "thorough" else M2_REDUCED))
     g.append(grid_members(4, False, ("-", "n", "s"), "B"))
     for L in (1, 2, 3):
         g.append(grid_body(L))
